@@ -291,6 +291,14 @@ class Model:
                 if node.value is not None:
                     mod.constants[node.target.id] = node.value
         self._partials_as_functions(mod)
+        # `OldName = NewName` with NewName a class of the module: the very same class under a second name
+        for name, node in list(mod.constants.items()):
+            if isinstance(node, ast.Name) and node.id in mod.classes and name not in mod.classes:
+                ci = mod.classes[node.id]
+                mod.classes[name] = ci
+                self.classes.setdefault(f"{mod.name}.{name}", ci)
+                self.__dict__.setdefault("class_aliases", {}).setdefault(ci.qualname, []).append(name)
+                del mod.constants[name]
 
     def _partials_as_functions(self, mod: ModuleInfo) -> None:
         """``name = partial(f, a, k=v)`` at module level with ``f`` a function of the module is the function
@@ -489,6 +497,9 @@ class Model:
                 if c.name in seen:
                     return
                 seen.append(c.name)
+                for alias in self.__dict__.get("class_aliases", {}).get(c.qualname, ()):
+                    if alias not in seen:
+                        seen.append(alias)  # the same class under its other name(s)
                 for b in self.bases(c):
                     go(b)
             else:
@@ -502,8 +513,8 @@ class Model:
         return seen
 
     def class_by_short(self, name: str) -> ClassInfo | None:
-        hits = [c for c in self.classes.values() if c.name == name]
-        return hits[0] if len(hits) == 1 else None
+        hits = {id(c): c for c in self.classes.values() if c.name == name or name in self.__dict__.get("class_aliases", {}).get(c.qualname, ())}
+        return next(iter(hits.values())) if len(hits) == 1 else None
 
     def is_subclass(self, name: str, ancestor: str) -> bool:
         c = self.class_by_short(name)
